@@ -32,6 +32,7 @@ def run(ctx):
     N.convex_update(ctx, 'R9.6', {'statistics', 'utils'}, 'Tally', '_m1', '_m2', 'value', N.STAT_AXIOMS)
     ctx.rule('R9.7', 'count / sum / minimum / maximum of Tally are maintained as n+1, sum+x, min(prev, x), max(prev, x) on every accepting path (def-use DAG)')
     N.accumulators(ctx, 'R9.7', {'statistics', 'utils'}, 'Tally', [('count', '_n'), ('sum', '_sum', 'value'), ('min', '_min', 'value'), ('max', '_max', 'value')], N.STAT_AXIOMS)
+    r98_moment_order(ctx)
     T.rejected_input(ctx, 'R9.2', ['Counter', 'Tally', 'EventBasedCounter', 'EventBasedTally', 'SimCounter', 'SimTally'])
     T.coercion_before_write(ctx, 'R9.2b', ['Tally'])
     T.reset_completeness(ctx, 'R9.3', ['Counter', 'Tally', 'EventBasedCounter', 'EventBasedTally', 'SimCounter', 'SimTally'])
@@ -51,3 +52,60 @@ def run(ctx):
              ('excess_kurtosis', (True,)): NEVER, ('excess_kurtosis', (False,)): NEVER}
     N.nan_table(ctx, 'R9.5', {'statistics', 'utils'}, 'Tally', list(spec0), '_n', spec0, zero_fields={'Tally': ['_m2', '_m3', '_m4']}, num_fields={'Tally': ['_min', '_max', '_m1']},
                 label_suffix=' [all observations equal]')
+
+
+def r98_moment_order(ctx):
+    """The one-pass recurrences of the third and fourth central moment are written in terms of the lower moments of the *previous* step
+    (Pebay 2008, eq. 2.13 / 2.16).  Structural necessary condition: in Tally.register every read of a lower moment m_j (2 <= j < k) inside the
+    update of m_k -- directly or through a local copied from it -- happens before m_j is written in that call."""
+    import ast
+    import re
+    from ..cfg import CFG
+    from ..core import is_self_attr, short, walk_shallow
+    prog = ctx.prog
+    ctx.rule('R9.8', 'moment recurrences: the update of m3 / m4 reads the previous-step values of the lower moments (no read of m_j after its own update in the same call)')
+    ci = prog.cls('Tally')
+    fn = prog.method('Tally', 'register', inherited=False)
+    g = CFG(fn)
+    mom = {}
+    for x in walk_shallow(fn):
+        if is_self_attr(x) and re.fullmatch(r'_m[1-4]', x.attr):
+            mom[x.attr] = int(x.attr[2])
+    writes = {}       # field -> [node]
+    for nd in g.stmt_nodes():
+        a = nd.ast
+        if isinstance(a, (ast.Assign, ast.AugAssign, ast.AnnAssign)):
+            for t in (a.targets if isinstance(a, ast.Assign) else [a.target]):
+                for y in ast.walk(t):
+                    if is_self_attr(y) and y.attr in mom and isinstance(y.ctx, ast.Store):
+                        writes.setdefault(y.attr, []).append(nd)
+    alias = {}        # local -> (field, defining node)
+    for nd in g.stmt_nodes():
+        a = nd.ast
+        if isinstance(a, (ast.Assign, ast.AnnAssign)) and getattr(a, 'value', None) is not None and is_self_attr(a.value) and a.value.attr in mom:
+            for t in (a.targets if isinstance(a, ast.Assign) else [a.target]):
+                if isinstance(t, ast.Name):
+                    alias[t.id] = (a.value.attr, nd)
+    n = 0
+    for f, k in sorted(mom.items()):
+        if k < 3:
+            continue
+        for U in writes.get(f, []):
+            val = U.ast.value
+            reads = []
+            for y in ast.walk(val):
+                if is_self_attr(y) and y.attr in mom and 2 <= mom[y.attr] < k:
+                    reads.append((y.attr, U, f'self.{y.attr}'))
+                elif isinstance(y, ast.Name) and y.id in alias and 2 <= mom[alias[y.id][0]] < k:
+                    reads.append((alias[y.id][0], alias[y.id][1], f'{y.id} = self.{alias[y.id][0]}'))
+            for (fj, at, how) in reads:
+                n += 1
+                stale = [W for W in writes.get(fj, []) if W is not at and g.reaches(W, at)]
+                ok = not stale
+                ctx.ob('R9.8', f'Tally.register:{f}<-{fj}', ok, sample=f'update of {f} reads {how} before {fj} is updated: {ok}')
+                if not ok:
+                    ctx.finding('R9.8', f'Tally.register:{f}:reads-updated-{fj}', ci, U.ast,
+                                f'the update of {f} reads {fj} (`{how}`) after `{short(stale[0].ast, 50)}` has already updated it for this observation: the recurrence '
+                                f'needs the previous-step value, so {f} -- and with it ' + ('kurtosis and excess kurtosis' if k == 4 else 'skewness') + ' -- is wrong '
+                                f'whenever the running lower moment is non-zero', where='Tally.register')
+    ctx.floor('R9.8', 'reads of lower moments in the m3 / m4 recurrences', n, 3)
